@@ -92,10 +92,12 @@ theorem Family.frac_sound {K : Type} [Field K] [CharZero K] {o : Ops K} (ho : Fi
 theorem Family.polyMod_sound {R : Type} [CommRing R] {o : Ops R} (ho : RingLike o)
     (h : f.ok look = true) (htm : f.treeMode = false) (hk : f.kind = .polyMod)
     {ks : List Nat} (hks : ks ∈ f.keys) {j : Nat} (hj : j < f.nOut ks) (env : Nat → R)
-    (hh : ∀ p ∈ f.hyps ks, p.1.eval o env = p.2.eval o env) :
+    (hh : ∀ p ∈ f.hyps ks, p.1.eval o env = p.2.eval o env)
+    (hrw : ∀ p ∈ f.rw ks, p.1.eval o env = p.2.eval o env) :
     (f.post ks (look f.unit ks).outE j).eval o env = (f.spec ks j).eval o env := by
   have := (Family.outE_eq h htm hks).2 j hj
   simp only [Family.compOK, Family.leafOK, hk] at this
+  rw [← E.rewrite_sound o env hrw]
   exact polyEqMod_sound ho this env hh
 
 theorem Family.fracMod_sound {K : Type} [Field K] [CharZero K] {o : Ops K} (ho : FieldLike o)
@@ -211,11 +213,13 @@ theorem Family.tree_syn_sound {R : Type} [CommRing R] {o : Ops R} (ho : RingLike
 theorem Family.tree_polyMod_sound {R : Type} [CommRing R] {o : Ops R} (ho : RingLike o)
     (h : f.ok look = true) (htm : f.treeMode = true) (hk : f.kind = .polyMod)
     {ks : List Nat} (hks : ks ∈ f.keys) {j : Nat} (hj : j < f.nOut ks) (env : Nat → R)
-    (hh : ∀ p ∈ f.hyps ks, p.1.eval o env = p.2.eval o env) :
+    (hh : ∀ p ∈ f.hyps ks, p.1.eval o env = p.2.eval o env)
+    (hrw : ∀ p ∈ f.rw ks, p.1.eval o env = p.2.eval o env) :
     ((look f.unit ks).out j).eval o env = (f.specT ks j).eval o env := by
   refine treeOK_sound ho env ?_ (Family.tree_elim h htm hks hj)
   intro a b hab
   simp only [Family.leafOK, hk] at hab
+  rw [← E.rewrite_sound o env hrw]
   exact polyEqMod_sound ho hab env hh
 
 theorem Family.tree_frac_sound {K : Type} [Field K] [CharZero K] {o : Ops K} (ho : FieldLike o)
